@@ -27,7 +27,7 @@ ASSUMPTIONS = ['operators whose third-party dependency is not installed are outs
 REQUIRED = ['entries-judged', 'binary:left-only-empty', 'binary:right-only-empty', 'binary:both-empty', 'reference-model-used',
             'generic-rule-used', 'explicit-expectation-used']
 EXHAUSTIVE = {'quick': True, 'thorough': True}
-SHAPES = ['lists', 'tuples', 'four-fields', 'generator', 'none-keys', 'chunked-sorts']
+SHAPES = ['lists', 'tuples', 'four-fields', 'generator', 'none-keys', 'chunked-sorts', 'method-form']
 
 H3 = ('f0', 'f1', 'f2')
 
@@ -216,7 +216,16 @@ def judge(case, ctx):
         if e.kind == 'dictviews':
             return {k: util.rows_of(v) for k, v in r.items()}
         return r
-    got = util.attempt(lambda: materialise(e.build(*srcs())))
+    if shape == 'method-form':
+        # the fluent form: etl.wrap(t).<operator>(...) must be the same operator
+        ctx.seen('method-form')
+
+        def build_and_read():
+            with C.method_form():
+                return materialise(e.build(*srcs()))
+        got = util.attempt(build_and_read)
+    else:
+        got = util.attempt(lambda: materialise(e.build(*srcs())))
     if isinstance(got, util.Raised):
         return {'kind': 'exception', 'detail': got.text, 'where': got.where, 'empty': case['empty']}
 
